@@ -289,6 +289,19 @@ feature! {
                 },
             )
         }
+
+        #[cfg(feature = "registry")]
+        fn register_filter(&mut self) -> FilterId {
+            // Filters are registered while the stack is being built, before
+            // the collector is shared: at that point the `Arc` is still unique.
+            match Arc::get_mut(self) {
+                Some(inner) => inner.register_filter(),
+                None => panic!(
+                    "{} is already shared and can no longer register filters",
+                    std::any::type_name::<Self>()
+                ),
+            }
+        }
     }
 
     impl<'a, S> LookupSpan<'a> for Box<S>
@@ -318,6 +331,11 @@ feature! {
                     filter,
                 },
             )
+        }
+
+        #[cfg(feature = "registry")]
+        fn register_filter(&mut self) -> FilterId {
+            self.as_mut().register_filter()
         }
     }
 
